@@ -39,10 +39,10 @@ PROPS["C18"] = {
 PROPS["C13"] = {
     "props": ["OsmVerif.Props.C13"],
     "gens": [],
-    "required_theorems": ["previous_is_greatest_below", "previous_exists_iff", "actions_order", "actions_length", "create_visible",
+    "required_theorems": ["block_actions", "change_error", "previous_is_greatest_below", "previous_exists_iff", "actions_order", "actions_length", "create_visible",
                           "visible_flags_and_old", "missing_history_error", "missing_previous_error", "ignore_missing_creates"],
     "technique": "Lean 4 theorems (scan invariant by induction over arbitrary histories) about a hand-written executable model of annotate.Change, tied to the code by a differential line protocol",
-    "level_text": "Machine-checked proof over all changes, all histories (unsorted, gapped, duplicates, later versions, absent, failing) and both option values that the model of annotate.Change emits exactly one action per element in create/modify/delete and node/way/relation order, marks creates visible, pairs every modified/deleted element with the history version of greatest version number below its own (found iff one exists), sets visible for modify and not for delete, and reports missing history / missing earlier version as NoVisibleChildError or as a create under IgnoreMissingChildren. The model is hand-written; every run executes it and annotate.Change on the same ~20k generated changes and compares action by action including which history entry was chosen.",
+    "level_text": "Machine-checked proof over all changes, all histories (unsorted, gapped, duplicates, later versions, absent, failing) and both option values that the model of annotate.Change emits exactly one action per element in create/modify/delete and node/way/relation order, marks creates visible, pairs every modified/deleted element with the history version of greatest version number below its own (found iff one exists), sets visible for modify and not for delete (block_actions, both option values), and - for the change as a whole (change_error) - succeeds exactly when no element of the modify and delete blocks raises an error and otherwise reports the error of the first such element in modify-then-delete, node-way-relation order: NoVisibleChildError for a missing history or missing earlier version, which under IgnoreMissingChildren becomes a visible create instead. The model is hand-written; every run executes it and annotate.Change on the same ~20k generated changes and compares action by action including which history entry was chosen.",
     "level_note": "Trusted: Lean kernel; the correspondence harness; versions are non-negative (the code's scan starts at max=-1, so negative versions are never selectable - stated in the theorems).",
     "design_ref": "DESIGN.md §5 C13",
     "trusted_base": ["model Model/Change.lean is hand-written; tie = differential stream (./check C13)"],
